@@ -87,6 +87,17 @@ def oracle_pair(case, ctx):
     for name in reps.NAMES:
         rep = reps.make_rep(kind, name, shape, space)
         a1, a2 = reps.convert(kind, rep, d1), reps.convert(kind, rep, d2)
+        # consumers post-process what they are given (normalisation in place, masking): the encoding of a member must not depend on it
+        mine = reps.convert(kind, rep, d1)
+        for v in mine.values():
+            if v.flags.writeable:
+                v -= 7
+        for other_rep in (rep, reps.make_rep(kind, name, shape, space)):
+            again = reps.convert(kind, other_rep, d1)
+            if not reps.arrays_equal(again, a1):
+                bad = [k for k in a1 if k not in again or not np.array_equal(again[k], a1[k])]
+                ctx.fail(f'{kind}/{name}: the representation of the same {kind} changed (keys {bad}) after a caller modified, in place, the arrays returned by an earlier convert',
+                         {'kind': 'lossless', 'rep': name, 'aspect': 'shared_arrays'})
         same = reps.arrays_equal(a1, a2)
         if same != bool(equal):
             ctx.fail(f'{kind}/{name}: representations are {"equal" if same else "different"} but the {kind}s are {"equal" if equal else "different"} (edit {case["edit"]}); '
@@ -340,6 +351,77 @@ def oracle_custom(case, ctx):
     ctx.ev.case(case, nt=True, classes=['parents_first' if case['parents_first'] else 'custom_first'] + ['custom:' + c for c in case['custom']])
 
 
+# ------------------------------------------------------------------ at the point of use: what the environments hand out
+
+
+def strat_reads(tier):
+    from vgv import configs
+    op = st.one_of(st.tuples(st.just('step'), st.integers(0, 7)).map(list), st.tuples(st.just('step'), st.integers(0, 7)).map(list), st.just(['read']),
+                   st.tuples(st.just('switch'), st.sampled_from(reps.NAMES), st.sampled_from(['gym', 'attribute', 'attribute'])).map(list), st.just(['reset']))
+    return st.fixed_dictionaries({'cfg': configs.config_s(), 'seed': gen.seed_s, 'ops': st.lists(op, min_size=4, max_size=20)})
+
+
+def oracle_reads(case, ctx):
+    """whatever the history of reads and representation switches (through the gym method or by assigning the public attribute of the
+    outer environment), the arrays handed out are the encoding -- by a freshly made representation of that name -- of the inner
+    environment's current observation / state"""
+    from vgv import configs
+    from gym_gridverse.gym import GymEnvironment
+    from gym_gridverse.outer_env import OuterEnv
+    from gym_gridverse.representations.observation_representations import make_observation_representation
+    from gym_gridverse.representations.state_representations import make_state_representation
+    cfg = case['cfg']
+    inner = guarded(ctx, 'build', configs.build, cfg, case['seed'])
+    try:
+        srep = make_state_representation('default', inner.state_space)
+    except ValueError:
+        srep = None
+    outer = OuterEnv(inner, state_representation=srep, observation_representation=make_observation_representation('default', inner.observation_space))
+    env = GymEnvironment(outer)
+    oname = sname = 'default'
+    env.reset()
+    switched_after_read = 0
+    last = 'reset'
+
+    def check(what):
+        exp = make_observation_representation(oname, inner.observation_space).convert(inner.observation)
+        for label, got in (('outer.observation', outer.observation), ('gym observation', env.observation)):
+            if not reps.arrays_equal(got, exp):
+                bad = [k for k in exp if k not in got or not np.array_equal(got[k], exp[k])]
+                ctx.fail(f'{cfg["base"]} {cfg["mods"]}: {what}: {label} (keys {bad}) is not the "{oname}" encoding of the inner observation', {'kind': 'env_read', 'rep': oname})
+        if srep is not None:
+            exp = make_state_representation(sname, inner.state_space).convert(inner.state)
+            if not reps.arrays_equal(outer.state, exp):
+                ctx.fail(f'{cfg["base"]} {cfg["mods"]}: {what}: outer.state is not the "{sname}" encoding of the inner state', {'kind': 'env_read', 'rep': sname})
+
+    check('after reset')
+    for k, op in enumerate(case['ops']):
+        if op[0] == 'step':
+            _, _, done, _ = guarded(ctx, 'gym step', env.step, op[1] % env.action_space.n)
+            if done:
+                env.reset()
+        elif op[0] == 'reset':
+            env.reset()
+        elif op[0] == 'switch':
+            oname = op[1]
+            if op[2] == 'gym':
+                env.set_observation_representation(oname)
+                if srep is not None:
+                    sname = oname
+                    env.set_state_representation(sname)
+            else:
+                outer.observation_representation = make_observation_representation(oname, inner.observation_space)
+                if srep is not None:
+                    sname = oname
+                    outer.state_representation = make_state_representation(sname, inner.state_space)
+            if last == 'read':
+                switched_after_read += 1
+        check(f'op {k} {op}')
+        last = 'read'
+    ctx.ev.case(case, nt=switched_after_read > 0, classes=['cfg:' + cfg['base'].replace('.yaml', '')] + (['switch_between_reads'] if switched_after_read else [])
+                + sorted({'switch:' + op[2] for op in case['ops'] if op[0] == 'switch'}))
+
+
 CHECKS = [
     Check('pairs', oracle_pair, strategy=strat_pair, examples={'quick': 400, 'thorough': 1500}, shards={'quick': 4, 'thorough': 16},
           rule='space x member pair (one generated edit: cell object / door status / door colour / agent cell / heading / held item / swap / independent draw) x 3 representations: equal arrays <=> equal members; positional cell encoding; agent marker; default triple; normalised pose',
@@ -352,4 +434,7 @@ CHECKS = [
     Check('custom_types', oracle_custom, enumerate=enum_custom, shards={'quick': 4, 'thorough': 8},
           rule='spaces mixing built-in types with user-defined ones (subclasses of Wall, of Key, and of GridObject) in both declaration orders: registry indices unique, default triple, injective encodings, channel disjointness',
           required=['parents_first', 'custom_first', 'custom:VerifCrate']),
+    Check('env_reads', oracle_reads, strategy=strat_reads, examples={'quick': 40, 'thorough': 150}, shards={'quick': 4, 'thorough': 16},
+          rule='shipped and perturbed configurations x 4-20 ops (step, reset, read, representation switch through the gym method or by assigning the outer environment\'s public attribute): every observation / state handed out == encoding of the inner one by a fresh representation',
+          required=['switch_between_reads', 'switch:gym', 'switch:attribute']),
 ]
